@@ -28,7 +28,7 @@ def plan(tier, seed):
     k = 5 if tier == 'quick' else 12
     for i in range(k):
         shards.append({'name': 'exhaustive-%d' % i, 'fn': 'shard_exhaustive', 'args': {'part': i, 'parts': k, 'kmax': 5 if tier == 'quick' else 6}})
-    r = 5 if tier == 'quick' else 12
+    r = 5 if tier == 'quick' else 32
     for i in range(r):
         shards.append({'name': 'random-%d' % i, 'fn': 'shard_random', 'args': {'part': i, 'parts': r}})
     shards.append({'name': 'prior-and-large', 'fn': 'shard_prior_and_large', 'args': {}})
